@@ -7,6 +7,10 @@
 // printer are parsed, printed and re-parsed by acra into the same tree.
 // Oracle 3 (TestSubstitution): the MySQL QueryDataEncryptor with an invertible stub encryptor emits
 // text that parses back to the original tree except exactly at configured literal positions.
+// Oracle 4 (TestSearchRewrite): MySQL HashQuery / MySQLTokenizeQuery change nothing but the search conditions.
+// Oracle 5 (TestSubstitutionPG): the PostgreSQL QueryDataEncryptor under pg_query's parser.
+// Oracle 6 (TestSearchRewritePG): PostgreSQL HashQuery / PostgreSQLTokenizeQuery under pg_query's parser; a
+// rewritten search condition keeps the kind and the name of its comparison.
 package c13
 
 import (
@@ -590,6 +594,14 @@ func TestReplay(t *testing.T) {
 				return hx.Vs{{Sig: "harness:decode", Msg: err.Error()}}
 			}
 			vs, _ := CheckSearchRewrite(c)
+			return vs
+		},
+		"TestSearchRewritePG": func(raw json.RawMessage) hx.Vs {
+			var c PGSRCase
+			if err := json.Unmarshal(raw, &c); err != nil {
+				return hx.Vs{{Sig: "harness:decode", Msg: err.Error()}}
+			}
+			vs, _ := CheckSearchRewritePG(c)
 			return vs
 		},
 	})
